@@ -739,6 +739,37 @@ func (e *Enc) join(fc *fctx, b *ssa.BasicBlock, in []edge) (string, *State) {
 			st.seen[a] = n
 		}
 	}
+	// a compiler-generated range index stays readable (by exit clauses: "the scan stopped at k") after
+	// control merges with paths that skipped its loop; on those paths its value is arbitrary
+	for _, a := range namedAllocs(fc.fn) {
+		if a.Comment != "rangeindex" || a.Heap {
+			continue
+		}
+		if _, done := st.loc[a]; done {
+			continue
+		}
+		some := false
+		for _, ed := range in {
+			if t, ok := ed.st.loc[a]; ok && !strings.HasPrefix(t, "@lazy!") {
+				some = true
+			}
+		}
+		if !some {
+			continue
+		}
+		f := e.fresh(a.Comment, e.m.sortOf(a.Type().(*types.Pointer).Elem()))
+		n := 0
+		for _, ed := range in {
+			if t, ok := ed.st.loc[a]; ok && !strings.HasPrefix(t, "@lazy!") {
+				e.assume(ed.guard, fmt.Sprintf("(= %s %s)", f, t))
+				if m := ed.st.seen[a]; m > n {
+					n = m
+				}
+			}
+		}
+		st.loc[a] = f
+		st.seen[a] = n
+	}
 	// iterators
 	for k, t0 := range in[0].st.iter {
 		all, same := true, true
